@@ -10,7 +10,7 @@ from .c01 import repo_texts
 from .c17 import ALL as PROC_ALL
 
 LEVEL = 'model_checking'
-EVERYTHING = sorted(set(PROC_ALL + ['caseexpr', 'parensemi', 'txbegin', 'junk']))
+EVERYTHING = sorted(set(PROC_ALL + ['caseexpr', 'parensemi', 'txbegin', 'junk', 'plainkw']))
 
 
 def c04_trace(tid, text):
